@@ -146,7 +146,7 @@ struct E2 : Engine {
 		// memory pressure may legally evict more / clear / drop, so successors fan out and observations filter them
 		std::vector<CacheModel> cands; CacheModel &M(){ return cands[0]; } bool inconclusive = false;
 		std::map<std::string,int64_t> cnt; int opi = 0; bool invalidated = false, hit_after_inval = false; bool evicted = false;
-		size_t baseline_avail = 0; bool have_baseline = false;
+		size_t baseline_avail = 0; bool have_baseline = false; size_t max_block0 = 0;   // largest block the empty shared segment can give: a value above it can never be kept
 		void fail(const std::string &cls,const std::string &m){ res->fail(cls,"op#" + std::to_string(opi) + ": " + m); }
 		int64_t now(){ return simk::now_us() / 1000000; }
 	};
@@ -200,10 +200,14 @@ struct E2 : Engine {
 		std::vector<CacheModel> next;
 		{ CacheModel n = before[0]; n.store(key,fpv(val),tr,dl,c.now()); n.stats(mk,mt); if(mk != k || mt != t) c.cnt["memory_pressure_events"]++; }
 		auto consider = [&](const CacheModel &m,const char *tag){ m.stats(mk,mt); if(mk == k && mt == t){ for(auto &x:next) if(x == m) return; next.push_back(m); if(tag) c.cnt[tag]++; } };
+		// a value larger than the largest block of the empty segment can never be copied: the store gives up before it touches anything but its own key -
+		// the superseded entry goes, every other entry stays (no eviction, no clear)
+		bool hopeless = c.max_block0 && val.size() > c.max_block0; if(hopeless) c.cnt["hopeless_stores"]++;
 		for(auto &b:before){
 			CacheModel cand = b; cand.m.erase(key);
 			// the value could not be copied, or the entry count is beyond the size cap: old entry gone, nothing stored
 			consider(cand,nullptr);
+			if(hopeless) continue;
 			while(cand.limit > 0 && cand.m.size() >= cand.limit && cand.evict_one(c.now())) {}
 			bool first = true;
 			for(;;){ CacheModel with = cand; model_insert(with,key,val,tr,dl); consider(with,nullptr); first = false; if(!cand.evict_one(c.now())) break; }
@@ -215,6 +219,7 @@ struct E2 : Engine {
 				if(mk == k && mt == t && it != b.m.end()){ std::string got; bool hit = c.cache->fetch(key,got,0);
 					if(hit && fpv(got) == it->second.val){ c.fail("stale-after-failed-store","store(" + key + ", " + std::to_string(val.size()) + " bytes) could not allocate and left the superseded value " + showv(got) + " readable"); return; } } }
 			c.M().stats(mk,mt);
+			if(hopeless){ c.fail("unkeepable-store-disturbed-other-entries","store(" + key + ", " + std::to_string(val.size()) + " bytes) can never fit into the segment (largest block " + std::to_string(c.max_block0) + "): only its own key may go, but keys=" + std::to_string(k) + " triggers=" + std::to_string(t) + " (before: keys=" + std::to_string(mk) + " triggers=" + std::to_string(mt) + ")"); return; }
 			c.fail("stats-mismatch","after store(" + key + ", " + std::to_string(val.size()) + " bytes): keys=" + std::to_string(k) + " triggers=" + std::to_string(t) + " matches no legal outcome (model before: keys=" + std::to_string(mk) + " triggers=" + std::to_string(mt) + ")"); return;
 		}
 		c.cands.swap(next);
@@ -276,7 +281,7 @@ struct E2 : Engine {
 				v["localization"]["locales"][0] = "C"; v["localization"]["backend"] = "std"; v["logging"]["stderr"] = false;
 				srv.reset(new cppcms::service(v)); c.cache = srv->cache_pool().get(); if(ctx){ app.reset(new PageApp(*srv)); app->new_request(); ci = &app->cache(); } else { ci_own.reset(new cppcms::cache_interface(*srv)); ci = ci_own.get(); }
 			}
-			else if(c.process){ size_t mem = (size_t)std::max<int64_t>(512,plan.geti("mem_kb",512)) * 1024; c.cache = cppcms::impl::process_cache_factory(mem,limit); do_clear(c); }
+			else if(c.process){ size_t mem = (size_t)std::max<int64_t>(512,plan.geti("mem_kb",512)) * 1024; c.cache = cppcms::impl::process_cache_factory(mem,limit); do_clear(c); c.max_block0 = cppcms::impl::process_settings::process_memory->max_available(); }
 			else c.cache = cppcms::impl::thread_cache_factory(limit);
 			auto madd = [&](const std::string &t){ for(auto &s:mrecs) s.insert(t); mtrig.insert(t); };
 			for(size_t i=0;i<ops.size() && res.ok;i++){
